@@ -363,15 +363,30 @@ int main(int argc, char** argv) {
             else if ((p = e.find("false")) != string::npos) e.replace(p, 5, "f");
             break;
           case 1:
-            if ((p = e.rfind(']')) != string::npos && p > 0 && e.find_last_not_of(" \t\n\r", p - 1) != string::npos &&
-                e[e.find_last_not_of(" \t\n\r", p - 1)] != '[' && e[e.find_last_not_of(" \t\n\r", p - 1)] != ',')
-              e.insert(p, ",");
+          case 2: {
+            // trailing comma before a randomly chosen structural closer (not only the last), optionally followed by
+            // blanks, newlines or a // comment before the closer
+            vector<size_t> closers;
+            bool in_str = false;
+            char prev_sig = 0;
+            for (size_t k = 0; k < e.size(); k++) {
+              char ch = e[k];
+              if (in_str) {
+                if (ch == '\\') k++;
+                else if (ch == '"') in_str = false;
+                prev_sig = '"';
+                continue;
+              }
+              if (ch == '"') in_str = true;
+              if ((ch == ']' || ch == '}') && prev_sig != '[' && prev_sig != '{' && prev_sig != ',' && prev_sig != 0) closers.push_back(k);
+              if (ch != ' ' && ch != '\t' && ch != '\n' && ch != '\r') prev_sig = ch;
+            }
+            if (!closers.empty()) {
+              static const char* after[] = {"", "", " ", "\n", " \t ", "\r\n  ", " // trailing comma\n", "\n// c\n "};
+              e.insert(closers[r.below(closers.size())], string(",") + after[r.below(8)]);
+            }
             break;
-          case 2:
-            if ((p = e.rfind('}')) != string::npos && p > 0 && e.find_last_not_of(" \t\n\r", p - 1) != string::npos &&
-                e[e.find_last_not_of(" \t\n\r", p - 1)] != '{' && e[e.find_last_not_of(" \t\n\r", p - 1)] != ',')
-              e.insert(p, ",");
-            break;
+          }
           case 3: e = "// leading comment \"x\" [\n" + e + " // trailing\n"; break;
           default: e = "[0x1F, -0x10, 0xdeadBEEF, " + e + "]"; break;
         }
@@ -405,6 +420,9 @@ int main(int argc, char** argv) {
              "1e", "\"\\x41\"", "\"a\nb\"", "[1,,2]", "[,1]", "{,}", "{\"a\" 1}", "{\"a\":1,}", "[1 2]", "nul", "truee", "\"\\u0100\"", "\"\\ud83d\\ude00\"",
              "1e400", "-1e400", "99999999999999999999", "-99999999999999999999", "0x10", "-0x10", "0xG", "[0x]", "/**/1", "1 /* c */"})
       docs.push_back({"mut", t});
+    for (const char* t : {"{\"one\":1, }", "{\n \"one\": 1,\n}", "[1, ]", "[1,\n// c\n]", "{\"a\":[1,],}", "{\"a\":[1, ], }", "[[1,\t],\r\n]", "{\"a\":{\"b\":n,// x\n},}",
+             "[ // c\n]", "{ // c\n}", "[1 // c\n,2]", "{\"a\" // c\n:1}", "{\"a\": // c\n1}", "[0x1F ,]", "[t , f , n ,]"})
+      docs.push_back({"ext", t});
     for (const char* t : {"[1, 2] /", "17 /", "\"abc\\", "\"\\u00", "[1,", "{\"a\":", "-", "0x", "tru", "[1 // c", "//", "/"}) docs.push_back({"mut", t});
     for (size_t i = 0; i < docs.size(); i++) {
       if ((int)(i % nshards) != shard) continue;
